@@ -15,6 +15,13 @@
   * fields are read with running offsets (`offset += field.length + 1`) – here: the remaining
     bytes are dropped; a read behind the end is `IndexError`
   * `raw = data[offset+1:offset+1+length]` is clamped
+  * the fields and the C1h marker are looked for in the WHOLE rest of the image, not in the area
+    whose length was just verified – as shipped (`fieldsLax`); repaired: `CommonInfoArea._from_data`
+    returns `data[:length - 1]`, the sub-classes decode from that, `FruTypeLengthString` and
+    `_decode_custom_fields` raise DecodingError when a field / the marker lies outside the data
+  * nothing compares the extent of an area with the offsets of the others – as shipped
+    (`overlapLax`, device path `devOverlapLax`); repaired: `_check_area_layout(header, fru)` at the
+    end of `FruInventory._from_data` and of `Fru.get_fru_inventory`
   * BCD+ text is `self.raw.decode('bcd+')`: exists only on `bytes` (AttributeError on array / list)
     – as shipped; invalid nibbles -> ValueError
   * 6-bit text: groups of 3 bytes -> 4 characters; a shorter last group raises IndexError – as shipped
@@ -29,7 +36,8 @@
   fixes/C15-2.diff (info-area length byte validated: not 0, inside the data – in
   `CommonInfoArea._from_data` and, for the device path, in `Fru._read_fru_area`) and
   fixes/C15-3.diff (a C0h record is a PICMG record only if its own data are long enough and start
-  with the PICMG manufacturer id; PICMG fields are read only from inside the record).  The harness
+  with the PICMG manufacturer id; PICMG fields are read only from inside the record),
+  fixes/C15-4.diff (fields confined to the area) and fixes/C15-5.diff (areas disjoint).  The harness
   PROBES every flag on the tree under test.  Byte-level bit expressions whose constants come from
   the source are evaluated from `Gen/FruTables.lean`.  Core only.
 -/
@@ -48,12 +56,18 @@ structure Variant where
   devLenLax : Bool        -- Fru._read_fru_area: area length 0 reads nothing -> attribute-less area object
   picmgTypeOnly : Bool    -- every C0h record is a PICMG record; the length guards look at the rest of
                           --   the image instead of the record's own length
+  fieldsLax : Bool        -- the fields / the C1h marker of an info area are read from everything behind the
+                          --   area offset (clamped raw, IndexError at the end of the data), not from the area
+  overlapLax : Bool       -- FruInventory._from_data: no check that the areas are disjoint
+  devOverlapLax : Bool    -- Fru.get_fru_inventory: no check that the areas are disjoint
   deriving Repr, DecidableEq, Inhabited
 
-def Variant.asShipped : Variant := ⟨true, true, true, true, true⟩
-def Variant.intended : Variant := ⟨false, false, false, false, false⟩
+def Variant.asShipped : Variant := ⟨true, true, true, true, true, true, true, true⟩
+def Variant.intended : Variant := ⟨false, false, false, false, false, false, false, false⟩
 /-- the pinned tree after fixes/C15-1.diff only (the tree the FRU audit looked at) -/
-def Variant.afterC15_1 : Variant := ⟨false, false, true, true, true⟩
+def Variant.afterC15_1 : Variant := ⟨false, false, true, true, true, true, true, true⟩
+/-- the pinned tree after fixes/C15-1..3.diff (the tree the second FRU audit looked at) -/
+def Variant.afterC15_3 : Variant := ⟨false, false, false, false, false, true, true, true⟩
 
 /-- Python type of the image object handed to `FruInventory` -/
 inductive InputKind where
@@ -105,14 +119,21 @@ def unpack6 (strict : Bool) : List Nat → Option (List Nat)
 
 /-! ### fields.TypeLengthString._from_data (argument: `data[offset:]`) -/
 
+/-- mask of the guard `offset + 1 + (data[offset] & MASK) > len(data)` in the repaired
+`FruTypeLengthString.__init__` (a tree without the guard is the `fieldsLax` variant, which does not
+use it – the default is the storage definition's) -/
+def fieldGuardMask : Nat := FruTables.fieldLenMask.getD 0x3f
+
 def tlString (v : Variant) (k : InputKind) (data : List Nat) : Outcome FieldView :=
   match data with
-  | [] => .pyError "IndexError"
+  | [] => if v.fieldsLax then .pyError "IndexError" else .decodingError
   | tl :: rest =>
     let ftype := (tl >>> FruTables.typeShift) &&& FruTables.typeMask
     let len := tl &&& FruTables.lenMask
     let raw := rest.take len
-    if ftype = FruTables.typeBcd then
+    -- FruTypeLengthString.__init__ (repaired): `offset + 1 + (data[offset] & 0x3f) > len(data)`
+    if !v.fieldsLax && decide (rest.length < tl &&& fieldGuardMask) then .decodingError
+    else if ftype = FruTables.typeBcd then
       if v.bcdBytesOnly && k != .bytes then .pyError "AttributeError"
       else match bcdDecode raw with
         | some s => .ok ⟨ftype, len, raw, s⟩
@@ -137,7 +158,7 @@ def customFields (v : Variant) (k : InputKind) : Nat → List Nat → Outcome (L
   | 0, _ => .pyError "unreachable"
   | fuel + 1, d =>
     match d with
-    | [] => .pyError "IndexError"
+    | [] => if v.fieldsLax then .pyError "IndexError" else .decodingError
     | b :: _ =>
       if b = FruTables.customFieldEnd then .ok []
       else
@@ -168,6 +189,25 @@ def areaFixed (kind : AreaKind) (d : List Nat) : Option (Nat × Nat) :=
     | _, _, _ => none
   | _ => some (3, 0)
 
+/-- the bytes the sub-class decodes: as shipped everything it was handed; repaired
+`data[:self.length - 1]` (Python slice: a length of 0 – possible only without the length
+validation – makes that `data[:-1]`) -/
+def areaData (v : Variant) (b1 : Nat) (d : List Nat) : List Nat :=
+  if v.fieldsLax then d else if b1 * 8 = 0 then d.dropLast else d.take (b1 * 8 - 1)
+
+/-- Inventory{Chassis,Board,Product}InfoArea._from_data behind CommonInfoArea._from_data -/
+def areaBody (v : Variant) (k : InputKind) (kind : AreaKind) (b0 b1 : Nat) (dd : List Nat) :
+    Outcome (Slot AreaView) :=
+  match dd[2]? with
+  | none => .pyError "IndexError"
+  | some b2 =>
+    match areaFixed kind dd with
+    | none => .pyError "IndexError"
+    | some (off, minutes) =>
+      (parseFields v k kind.nFields (dd.drop off)).bind fun r =>
+      (customFields v k (r.2.length + 1) r.2).bind fun cs =>
+      .ok (.parsed ⟨b0 % 16, b1 * 8, b2, minutes, r.1, cs⟩)
+
 def parseArea (v : Variant) (k : InputKind) (kind : AreaKind) (d : List Nat) : Outcome (Slot AreaView) :=
   match d with
   | [] => .ok .empty
@@ -178,15 +218,7 @@ def parseArea (v : Variant) (k : InputKind) (kind : AreaKind) (d : List Nat) : O
       | some b1 =>
         if !v.areaLenLax && (b1 * 8 == 0 || decide (d.length < b1 * 8)) then .decodingError
         else if (d.take (b1 * 8)).sum % 256 ≠ 0 then .decodingError
-        else match d[2]? with
-          | none => .pyError "IndexError"
-          | some b2 =>
-            match areaFixed kind d with
-            | none => .pyError "IndexError"
-            | some (off, minutes) =>
-              (parseFields v k kind.nFields (d.drop off)).bind fun r =>
-              (customFields v k (r.2.length + 1) r.2).bind fun cs =>
-              .ok (.parsed ⟨b0 % 16, b1 * 8, b2, minutes, r.1, cs⟩)
+        else areaBody v k kind b0 b1 (areaData v b1 d)
 
 /-! ### multi-record area -/
 
@@ -293,6 +325,41 @@ def slotStep {α : Type} (off : Nat) (bs : List Nat) (p : List Nat → Outcome (
     Outcome (Slot α) :=
   if off = 0 then .ok .absent else p (bs.drop off)
 
+/-! ### `_check_area_layout(header, fru)` (fixes/C15-5.diff)
+
+    starts  = the five offsets of the common header (None for an absent area)
+    lengths = 0, chassis.length, board.length, product.length, sum(record.length + 5)
+              (`getattr(area, 'length', 0)`: an absent area or an area object without attributes counts 0)
+    for i, start / for j, other: `i != j and start and other and start <= other < start + lengths[i]` -> DecodingError -/
+
+def areaLen : Slot AreaView → Nat
+  | .parsed a => a.length
+  | _ => 0
+
+def multiLenOf : Slot (List RecView) → Nat
+  | .parsed rs => (rs.map fun r => r.length + 5).sum
+  | _ => 0
+
+def hdrStart (h : HeaderView) : Nat → Nat
+  | 1 => h.internalOff
+  | 2 => h.chassisOff
+  | 3 => h.boardOff
+  | 4 => h.productOff
+  | 5 => h.multiOff
+  | _ => 0
+
+def slotLens (c b p : Slot AreaView) (m : Slot (List RecView)) : Nat → Nat
+  | 2 => areaLen c
+  | 3 => areaLen b
+  | 4 => areaLen p
+  | 5 => multiLenOf m
+  | _ => 0
+
+def layoutClash (h : HeaderView) (c b p : Slot AreaView) (m : Slot (List RecView)) : Bool :=
+  [1, 2, 3, 4, 5].any fun i => [1, 2, 3, 4, 5].any fun j =>
+    i != j && hdrStart h i != 0 && hdrStart h j != 0 &&
+      decide (hdrStart h i ≤ hdrStart h j) && decide (hdrStart h j < hdrStart h i + slotLens c b p m i)
+
 /-- FruInventory(data) -/
 def parseFru (v : Variant) (k : InputKind) (bs : List Nat) : Outcome FruView :=
   match bs with
@@ -303,6 +370,7 @@ def parseFru (v : Variant) (k : InputKind) (bs : List Nat) : Outcome FruView :=
     (slotStep h.boardOff bs (parseArea v k .board)).bind fun b =>
     (slotStep h.productOff bs (parseArea v k .product)).bind fun p =>
     (slotStep h.multiOff bs (parseMulti v)).bind fun m =>
-    .ok ⟨some h, c, b, p, m⟩
+    if !v.overlapLax && layoutClash h c b p m then .decodingError
+    else .ok ⟨some h, c, b, p, m⟩
 
 end PyIpmi.Fru
